@@ -19,7 +19,7 @@ PROPOSED_KNOWN = {}   # everything found so far is either repaired in /repo or l
 
 IN_FAMS_QUICK = ["lit0", "var0", "def0", "over", "list1", "list1var", "list1def", "list2", "varin", "objlist", "relaxed"]
 IN_FAMS_THOROUGH = IN_FAMS_QUICK + ["list2var"]
-OUT_FAMS = ["oleaf", "olist", "otyped", "olist2", "oobj"]
+OUT_FAMS = ["oleaf", "olist", "otyped", "otyped2", "olist2", "oobj"]
 
 MC_CFG = """SPECIFICATION MCSpec
 CONSTANTS
